@@ -199,11 +199,8 @@ def _gen_step(r, nfaults, first):
         st["pre_noop_call"] = True
         st["overwrite"] = True
         st["fault"] = None
-    if st["fault"] is not None and r.random() < 0.2:
-        # the fault is delivered as an exception, caught by the caller, who forces a re-run on the same converter object
-        st["retry_same_object"] = True
-        st["fault"] = dict(st["fault"], kinds=["io_error", "short", "interrupt"], no_persistent=True)
-        st["delete_original"] = False
+    r.random()      # (draw kept: until session 3 a share of faulted calls were retried on the SAME converter object after the exception;
+    #                  removed as a false alarm - the state of a converter whose call failed is unspecified, see DESIGN 8.2)
     if st["fault"] is None and not st.get("pre_noop_call") and r.random() < 0.1:
         # one converter object: trial conversion of the first samples, then init_params() again and the real run
         st["pre_trial"] = r.choice([600, 1000, 1200])
